@@ -117,6 +117,16 @@ def destructuring_cases(ck):
     for d in (2, 3):
         for i, (p, n, v) in enumerate(pats(d)):
             yield f"nested:{d}:{i}", f"{p} = {v}\nL(sorted((k, v) for k, v in globals().items() if k[0] == 'n' and k[1:].isdigit()))\n"
+    # nested patterns whose ELEMENTS are iterables of every kind (an element that cannot be indexed must still be unpacked)
+    for kind in kinds:
+        for star in (False, True):
+            inner = "a, *b" if star else "a, b"
+            yield f"nested-element:{kind}:{star}", f"({inner}), c = {values(kind, 2)}, 3\nL(a, b, c)\n"
+            yield f"nested-element-list:{kind}:{star}", f"[c, [{inner}]] = [3, {values(kind, 2)}]\nL(a, b, c)\n"
+            yield f"nested-element-deep:{kind}:{star}", f"x, (y, ({inner})) = 0, (1, {values(kind, 2)})\nL(a, b, x, y)\n"
+            yield f"nested-element-for:{kind}:{star}", f"for ({inner}), c in [({values(kind, 2)}, 3)]:\n    L(a, b, c)\n"
+    yield "nested-element-map", "(a, b), (c, *d) = map(str, [1, 2]), {5: 6, 7: 8}\nL(a, b, c, d)\n"
+    yield "nested-element-dict-int-keys", "(a, b), c = {1: 'x', 0: 'y'}, 3\nL(a, b, c)\n"
     # targets of every kind inside patterns, chained, attribute / subscript / slice with missing bounds
     yield "mixed-targets", "class O: pass\no = O()\nd = [0, 0, 0, 0]\no.a, d[1], (d[2], *r), d[3:] = 1, 2, (3, 4, 5), [6, 7]\nL(o.a, d, r)\n"
     for lo, hi, st in itertools.product(['', '1', '-2'], ['', '3', '-1'], ['', ':', ':2', ':-1']):
